@@ -93,6 +93,12 @@ func statsOf(in *Intent) intentStats {
 		if len(a.Meta.Annos) > 0 {
 			cl["app_annotation"] = true
 		}
+		if len(a.Collector) > 0 {
+			cl["collector"] = true
+			for _, l := range a.Collector {
+				cl["collector_"+l.Kind] = true
+			}
+		}
 		if len(a.Mixins) > 0 {
 			cl["mixin"] = true
 		}
